@@ -21,8 +21,8 @@ class C20 : public Check
 public:
     const char *id() { return "C20"; }
     const char *opName(int) { return "scenario"; }
-    int quickRuns() { return 1200; }
-    int quickSeconds() { return 75; }
+    int quickRuns() { return 8000; }
+    int quickSeconds() { return 90; }
     int thoroughSeconds() { return 1200; }
     int cpuBudgetSec() { return 60; }
     const char *rule()
@@ -45,7 +45,7 @@ public:
         p.cfg["pcmrate"] = r.chance(0.25);
         p.cfg["chips"] = (int64_t)r.range(1, 3);
         p.cfg["key"] = (int64_t)r.range(24, 108);
-        p.cfg["scenario"] = (int64_t)r.weighted({ 5, 4, 2 });
+        p.cfg["scenario"] = (int64_t)r.weighted({ 5, 4, 2, 3 });
         p.cfg["burst"] = (int64_t)r.pick<int>({ 1, 5, 20, 60, 120, 200, 400 });
         p.cfg["sliceseed"] = (int64_t)r.below(1u << 30);
         (void)thorough;
@@ -115,7 +115,7 @@ public:
         opn2_setRunAtPcmRate(R.dev, pcmRate);
         tapInstall(true);
         run.count(("core." + std::to_string(core)).c_str()); if(pcmRate) run.count("pcm_rate_mode"); if(rate < 22050) run.count("rate_lt_22050"); if(rate == 53267 || rate == 55466) run.count("native_rate");
-        const char *scn = scenario == 0 ? "A" : scenario == 1 ? "B" : "C"; run.count((std::string("scenario.") + scn).c_str());
+        const char *scn = scenario == 0 ? "A" : scenario == 1 ? "B" : scenario == 2 ? "C" : "D"; run.count((std::string("scenario.") + scn).c_str());
         std::string cell = "core " + std::to_string(core) + " (" + opn2_chipEmulatorName(R.dev) + ") family " + std::to_string(family) + " rate " + std::to_string(rate) + (pcmRate ? " run-at-PCM-rate" : "") + " chips " + std::to_string(p.get("chips", 1)) + " key " + std::to_string(key);
         std::string sig = "core" + std::to_string(core) + (pcmRate ? ".pcmrate" : "");
         const double FS = 32768.0;
@@ -130,7 +130,55 @@ public:
             return true;
         };
         Hasher st; st.add((uint64_t)core); st.add((uint64_t)family); st.add((uint64_t)rate); st.add(pcmRate); st.add((uint64_t)scenario); st.add((uint64_t)(key / 12)); run.state(st.h);
-        if(!run.failed() && scenario != 1)
+        if(!run.failed() && scenario == 3)
+        {
+            // ---- D: a chord; every one of its notes must be audible while held (amplitude at its own fundamental)
+            Rng cr(mix64((uint64_t)p.get("sliceseed"), 0xC40D));
+            const int chips = (int)p.get("chips", 1); int n = (int)cr.range(2, 6); if(n > 6 * chips) n = 6 * chips;
+            static const int steps[6] = { 0, 4, 7, 11, 14, 17 };
+            int base = key; if(base > 84) base = 84; if(base < 30) base = 30;
+            std::vector<int> keys; for(int i = 0; i < n; ++i) keys.push_back(base + steps[i]);
+            size_t t0 = R.pcm.size();
+            for(int i = 0; i < n; ++i) if(opn2_rt_noteOn(R.dev, 0, (OPN2_UInt8)keys[(size_t)i], 127) != 1) run.fail("playable-note-rejected", sig, cell);
+            R.render(0.3);
+            size_t t1 = R.pcm.size();
+            if(!run.failed() && !pcmRate)
+            {
+                size_t a = t0 + (size_t)(0.1 * (double)rate), b = a + (size_t)(0.1 * (double)rate); if(b > t1) b = t1;
+                double mean = 0; for(size_t i = a; i < b; ++i) mean += R.pcm[i]; mean /= (double)(b - a);
+                std::vector<double> amp; std::vector<int> judged;
+                for(int i = 0; i < n; ++i)
+                {
+                    double nominal = 440.0 * std::pow(2.0, (keys[(size_t)i] - 69) / 12.0); if(!(nominal < 0.4 * (double)rate)) continue;
+                    double best = 0;
+                    for(int dq = -2; dq <= 2; ++dq)
+                    {
+                        double f = nominal * (1.0 + 0.005 * dq), re = 0, im = 0, w = 2.0 * M_PI * f / (double)rate;
+                        for(size_t q = a; q < b; ++q) { double v = R.pcm[q] - mean, ph = w * (double)(q - a); re += v * std::cos(ph); im -= v * std::sin(ph); }
+                        double m = 2.0 * std::sqrt(re * re + im * im) / (double)(b - a); if(m > best) best = m;
+                    }
+                    amp.push_back(best); judged.push_back(keys[(size_t)i]);
+                }
+                if(amp.size() >= 2)
+                {
+                    std::vector<double> srt = amp; std::sort(srt.begin(), srt.end()); double med = srt[srt.size() / 2];
+                    run.count("chord_notes_measured", amp.size());
+                    for(size_t i = 0; i < amp.size() && !run.failed(); ++i)
+                        if(amp[i] < 0.25 * med || amp[i] < 0.003 * FS)
+                            run.fail("chord-note-inaudible", sig, cell + ": chord of " + std::to_string(n) + " keys from " + std::to_string(base) + ": key " + std::to_string(judged[i]) + " has amplitude " + std::to_string(amp[i]) + " at its fundamental while the chord's median is " + std::to_string(med));
+                    run.log.add((uint64_t)med);
+                }
+            }
+            if(!run.failed())
+            {
+                for(int i = 0; i < n; ++i) opn2_rt_noteOff(R.dev, 0, (OPN2_UInt8)keys[(size_t)i]);
+                R.render(0.1);
+                size_t dl = R.pcm.size();
+                R.render(0.3);
+                quietFrom(dl, "after-chord-release");
+            }
+        }
+        else if(!run.failed() && scenario != 1)
         {
             // ---- A / C: one held note
             size_t t0 = R.pcm.size();
